@@ -118,7 +118,7 @@ class Episode:
 
 
 def run_episode(env, td_in, chooser_names, gen, max_steps: int, scripted=None, snap_keys=None, get_reward=True,
-                pad_chooser=None, stop_when_all_done=True, extra_pad_steps=0, clone_input=True) -> Episode:
+                pad_chooser=None, stop_when_all_done=True, extra_pad_steps=0, clone_input=True, peek=None) -> Episode:
     """td_in: instance TensorDict (generator format). chooser_names: per-row chooser.
     scripted: optional [B][T] list of actions (rows may be shorter -> padding by pad_chooser/'first_true').
     """
@@ -177,6 +177,15 @@ def run_episode(env, td_in, chooser_names, gen, max_steps: int, scripted=None, s
             ep.final_mask = mask
             break
         ep.actions.append(a.clone())
+        if peek is not None:
+            # probe another admitted action from the SAME retained state and throw the result away (look-ahead / search code
+            # does this in TorchRL mode, where step() must leave the caller's state alone)
+            try:
+                td.set("action", choose([peek] * B, mask, td, gen))
+                env.step(td)
+                ep.peeks = getattr(ep, "peeks", 0) + 1
+            except Exception:
+                pass
         td.set("action", a.clone())
         try:
             td = env.step(td)["next"]
